@@ -597,6 +597,9 @@ class ManifestContext:
             if isinstance(pos, int):
                 drop_seg = pos
             else:
+                if not isinstance(availabilityStartTime, datetime.datetime):
+                    # a time only selects a segment of a live stream
+                    continue
                 tm = availabilityStartTime.replace(
                     hour=pos.hour, minute=pos.minute, second=pos.second)
                 if tm < earliest_available:
